@@ -494,10 +494,10 @@ Proof.
     destruct (extract_loop G tc r outs _) as [c2 [vs| | |]]; simpl in *; auto.
 Qed.
 
-Lemma extract_unfold : forall oi outs c,
-  extract_output_values G tc oi outs c =
-  if negb (Nat.eqb (length outs) (num_outputs oi))
-  then (c, Err (RT_WrongNumberOfOutputs (N.of_nat (num_outputs oi)) (N.of_nat (length outs))))
+Lemma extract_unfold : forall nout oi outs c,
+  extract_output_values G tc nout oi outs c =
+  if negb (Nat.eqb (length outs) nout)
+  then (c, Err (RT_WrongNumberOfOutputs (N.of_nat nout) (N.of_nat (length outs))))
   else (ctx_swap_vars (fst (extract_loop G tc (combine (tc_expected_indices tc) oi) outs (ctx_swap_vars c))),
         snd (extract_loop G tc (combine (tc_expected_indices tc) oi) outs (ctx_swap_vars c))).
 Proof.
@@ -505,14 +505,14 @@ Proof.
   destruct (extract_loop G tc _ outs (ctx_swap_vars c)); reflexivity.
 Qed.
 
-Lemma extract_Ok_inv : forall oi outs c c' vals,
-  extract_output_values G tc oi outs c = (c', Ok vals) ->
-  length outs = num_outputs oi /\
+Lemma extract_Ok_inv : forall nout oi outs c c' vals,
+  extract_output_values G tc nout oi outs c = (c', Ok vals) ->
+  length outs = nout /\
   exists c1, extract_loop G tc (combine (tc_expected_indices tc) oi) outs (ctx_swap_vars c) = (c1, Ok vals)
              /\ c' = ctx_swap_vars c1.
 Proof.
-  intros oi outs c c' vals H. rewrite extract_unfold in H.
-  destruct (Nat.eqb (length outs) (num_outputs oi)) eqn:E; simpl in H; [|discriminate].
+  intros nout oi outs c c' vals H. rewrite extract_unfold in H.
+  destruct (Nat.eqb (length outs) nout) eqn:E; simpl in H; [|discriminate].
   apply Nat.eqb_eq in E. split; [exact E|].
   destruct (extract_loop G tc _ outs (ctx_swap_vars c)) as [c1 r]. simpl in H. inversion H; subst.
   exists c1. auto.
@@ -520,11 +520,11 @@ Qed.
 
 (* C14: the swap of the variable maps is undone on every path, and nothing else but the
    generator changes *)
-Theorem extract_restores_vars : forall oi outs c c' r,
-  extract_output_values G tc oi outs c = (c', r) ->
+Theorem extract_restores_vars : forall nout oi outs c c' r,
+  extract_output_values G tc nout oi outs c = (c', r) ->
   cvars c' = cvars c /\ calt c' = calt c /\ couts c' = couts c.
 Proof.
-  intros oi outs c c' r H. rewrite extract_unfold in H. destruct (negb _).
+  intros nout oi outs c c' r H. rewrite extract_unfold in H. destruct (negb _).
   - inversion H; subst. auto.
   - inversion H; subst. clear H.
     destruct (extract_loop_frame (combine (tc_expected_indices tc) oi) outs (ctx_swap_vars c)) as [H1 [H2 H3]].
@@ -533,9 +533,9 @@ Qed.
 
 (* ------------------------------------------------------------------ (3) C13: no misattribution *)
 
-Theorem no_misattribution : forall outs0 oi outs c c' vals,
+Theorem no_misattribution : forall outs0 nout oi outs c c' vals,
   build_output_indices tc outs0 = Ok oi ->
-  extract_output_values G tc oi outs c = (c', Ok vals) ->
+  extract_output_values G tc nout oi outs c = (c', Ok vals) ->
   Forall2 (fun idx v =>
      match nth_error (tc_signals tc) (ei_signal_index idx) with
      | Some s => match styp s with
@@ -546,7 +546,7 @@ Theorem no_misattribution : forall outs0 oi outs c c' vals,
      | None => True
      end) (tc_expected_indices tc) vals.
 Proof.
-  intros outs0 oi outs c c' vals Hb He.
+  intros outs0 nout oi outs c c' vals Hb He.
   apply build_spec in Hb. apply extract_Ok_inv in He. destruct He as [_ [c1 [He _]]].
   apply extract_loop_Ok in He.
   eapply Forall2_combine; [exact Hb | exact He |].
@@ -650,15 +650,15 @@ Proof. intros c H x. unfold ctx_get, ctx_swap_vars, ctx_new. simpl. rewrite H. r
 (* The value reported for a virtual signal is its expression evaluated over THIS call's
    outputs (couts c is the map built from this answer) with NO program variable visible;
    the generator state is the one left by the virtual entries before it. *)
-Theorem virtual_value : forall outs0 oi outs c c' vals k e,
+Theorem virtual_value : forall outs0 nout oi outs c c' vals k e,
   build_output_indices tc outs0 = Ok oi ->
-  extract_output_values G tc oi outs c = (c', Ok vals) ->
+  extract_output_values G tc nout oi outs c = (c', Ok vals) ->
   calt c = fm_new ->
   nth_error oi k = Some (OIVirtual e) ->
   exists n, nth_error vals k = Some (OVal n) /\
     fst (eval G (ctx_new (couts c)) e (virtual_rng (ctx_new (couts c)) (firstn k oi) (crng c))) = Ok n.
 Proof.
-  intros outs0 oi outs c c' vals k e Hb He Halt Hk.
+  intros outs0 nout oi outs c c' vals k e Hb He Halt Hk.
   apply build_length in Hb. apply extract_Ok_inv in He. destruct He as [_ [c1 [He _]]].
   apply extract_loop_virtual in He. destruct He as [_ He].
   rewrite map_snd_combine in He by (symmetry; exact Hb).
@@ -668,31 +668,31 @@ Proof.
 Qed.
 
 (* the form of the task statement: an explicit context with an empty variable map *)
-Corollary virtual_value_explicit : forall outs0 oi outs c c' vals k e,
+Corollary virtual_value_explicit : forall outs0 nout oi outs c c' vals k e,
   build_output_indices tc outs0 = Ok oi ->
-  extract_output_values G tc oi outs c = (c', Ok vals) ->
+  extract_output_values G tc nout oi outs c = (c', Ok vals) ->
   calt c = fm_new ->
   nth_error oi k = Some (OIVirtual e) ->
   exists rng n, nth_error vals k = Some (OVal n) /\
     fst (eval G {| cvars := fm_new; calt := cvars c; couts := couts c; crng := rng |} e rng) = Ok n.
 Proof.
-  intros outs0 oi outs c c' vals k e Hb He Halt Hk.
-  destruct (virtual_value _ _ _ _ _ _ _ _ Hb He Halt Hk) as [n [H1 H2]].
+  intros outs0 nout oi outs c c' vals k e Hb He Halt Hk.
+  destruct (virtual_value _ _ _ _ _ _ _ _ _ Hb He Halt Hk) as [n [H1 H2]].
   exists (virtual_rng (ctx_new (couts c)) (firstn k oi) (crng c)), n. split; [exact H1|]. rewrite <- H2.
   f_equal. apply eval_blind_to. intro x. reflexivity.
 Qed.
 
 (* no virtual expression draws random numbers: every one of them sees the generator of the call *)
-Corollary virtual_value_no_random : forall outs0 oi outs c c' vals k e,
+Corollary virtual_value_no_random : forall outs0 nout oi outs c c' vals k e,
   build_output_indices tc outs0 = Ok oi ->
-  extract_output_values G tc oi outs c = (c', Ok vals) ->
+  extract_output_values G tc nout oi outs c = (c', Ok vals) ->
   calt c = fm_new ->
   no_random_entries oi = true ->
   nth_error oi k = Some (OIVirtual e) ->
   exists n, nth_error vals k = Some (OVal n) /\ eval G (ctx_new (couts c)) e (crng c) = (Ok n, crng c).
 Proof.
-  intros outs0 oi outs c c' vals k e Hb He Halt Hnr Hk.
-  destruct (virtual_value _ _ _ _ _ _ _ _ Hb He Halt Hk) as [n [H1 H2]].
+  intros outs0 nout oi outs c c' vals k e Hb He Halt Hnr Hk.
+  destruct (virtual_value _ _ _ _ _ _ _ _ _ Hb He Halt Hk) as [n [H1 H2]].
   rewrite virtual_rng_no_random in H2 by (apply no_random_entries_firstn; exact Hnr).
   exists n. split; [exact H1|].
   assert (Hm : mentions_random e = false).
@@ -705,13 +705,13 @@ Proof.
 Qed.
 
 (* the generator after the call *)
-Theorem extract_rng : forall outs0 oi outs c c' vals,
+Theorem extract_rng : forall outs0 nout oi outs c c' vals,
   build_output_indices tc outs0 = Ok oi ->
-  extract_output_values G tc oi outs c = (c', Ok vals) ->
+  extract_output_values G tc nout oi outs c = (c', Ok vals) ->
   calt c = fm_new ->
   crng c' = virtual_rng (ctx_new (couts c)) oi (crng c).
 Proof.
-  intros outs0 oi outs c c' vals Hb He Halt.
+  intros outs0 nout oi outs c c' vals Hb He Halt.
   apply build_length in Hb. apply extract_Ok_inv in He. destruct He as [_ [c1 [He Hc]]].
   apply extract_loop_virtual in He. destruct He as [He _].
   rewrite map_snd_combine in He by (symmetry; exact Hb). subst c'. simpl. rewrite He.
@@ -744,12 +744,12 @@ Proof.
       simpl in *; try discriminate; split; congruence.
 Qed.
 
-Theorem virtual_blind_to_variables : forall oi outs c1 c2,
+Theorem virtual_blind_to_variables : forall nout oi outs c1 c2,
   calt c1 = calt c2 -> couts c1 = couts c2 -> crng c1 = crng c2 ->
-  snd (extract_output_values G tc oi outs c1) = snd (extract_output_values G tc oi outs c2) /\
-  crng (fst (extract_output_values G tc oi outs c1)) = crng (fst (extract_output_values G tc oi outs c2)).
+  snd (extract_output_values G tc nout oi outs c1) = snd (extract_output_values G tc nout oi outs c2) /\
+  crng (fst (extract_output_values G tc nout oi outs c1)) = crng (fst (extract_output_values G tc nout oi outs c2)).
 Proof.
-  intros oi outs c1 c2 Ha Ho Hr. rewrite !extract_unfold. destruct (negb _); simpl; [auto|].
+  intros nout oi outs c1 c2 Ha Ho Hr. rewrite !extract_unfold. destruct (negb _); simpl; [auto|].
   apply extract_loop_blind; [|exact Hr].
   intro x. unfold ctx_get, ctx_swap_vars. simpl. rewrite Ha, Ho. reflexivity.
 Qed.
@@ -774,17 +774,17 @@ Proof.
     destruct (extract_loop G tc p2 outs c2) as [c3 [vs2| | |]]; reflexivity.
 Qed.
 
-Theorem virtual_error_is_row_error : forall outs0 oi outs c k e xe c1 vals1,
+Theorem virtual_error_is_row_error : forall outs0 nout oi outs c k e xe c1 vals1,
   build_output_indices tc outs0 = Ok oi ->
-  length outs = num_outputs oi ->
+  length outs = nout ->
   calt c = fm_new ->
   nth_error oi k = Some (OIVirtual e) ->
   extract_loop G tc (combine (firstn k (tc_expected_indices tc)) (firstn k oi)) outs (ctx_swap_vars c)
     = (c1, Ok vals1) ->                                       (* the earlier entries succeed *)
   fst (eval G (ctx_new (couts c)) e (crng c1)) = Err xe ->
-  snd (extract_output_values G tc oi outs c) = Err (RT_Expr xe).
+  snd (extract_output_values G tc nout oi outs c) = Err (RT_Expr xe).
 Proof.
-  intros outs0 oi outs c k e xe c1 vals1 Hb Hl Halt Hk Hpre Hev.
+  intros outs0 nout oi outs c k e xe c1 vals1 Hb Hl Halt Hk Hpre Hev.
   rewrite extract_unfold, Hl, Nat.eqb_refl. simpl.
   apply build_length in Hb.
   assert (Hsplit : combine (tc_expected_indices tc) oi =
@@ -811,17 +811,17 @@ Proof.
 Qed.
 
 (* the instance asked for: a virtual signal that is just another signal whose value is Z or X *)
-Corollary virtual_ZX_is_error : forall outs0 oi outs c k x v c1 vals1,
+Corollary virtual_ZX_is_error : forall outs0 nout oi outs c k x v c1 vals1,
   build_output_indices tc outs0 = Ok oi ->
-  length outs = num_outputs oi ->
+  length outs = nout ->
   calt c = fm_new ->
   nth_error oi k = Some (OIVirtual (EVar x)) ->
   extract_loop G tc (combine (firstn k (tc_expected_indices tc)) (firstn k oi)) outs (ctx_swap_vars c)
     = (c1, Ok vals1) ->
   ctx_get (ctx_new (couts c)) x = Some v -> v = OZ \/ v = OX ->
-  snd (extract_output_values G tc oi outs c) = Err (RT_Expr (XE_UnexpectedValueForSignal x v)).
+  snd (extract_output_values G tc nout oi outs c) = Err (RT_Expr (XE_UnexpectedValueForSignal x v)).
 Proof.
-  intros outs0 oi outs c k x v c1 vals1 Hb Hl Halt Hk Hpre Hg Hv.
+  intros outs0 nout oi outs c k x v c1 vals1 Hb Hl Halt Hk Hpre Hg Hv.
   eapply virtual_error_is_row_error; eauto. rewrite (eval_var_ZX G _ x v _ Hg Hv). reflexivity.
 Qed.
 
@@ -849,9 +849,9 @@ Qed.
 (* The answer has the layout of the first one: every non-virtual expected signal gets the
    value of THE (first) entry of this answer that carries the signal, X if there is none.
    (NoDup of the layout is not needed for this.) *)
-Theorem stable_layout_attribution : forall outs0 oi outs c c' vals,
+Theorem stable_layout_attribution : forall outs0 nout oi outs c c' vals,
   build_output_indices tc outs0 = Ok oi ->
-  extract_output_values G tc oi outs c = (c', Ok vals) ->
+  extract_output_values G tc nout oi outs c = (c', Ok vals) ->
   map oe_sig outs = map oe_sig outs0 ->
   Forall2 (fun idx v =>
      match nth_error (tc_signals tc) (ei_signal_index idx) with
@@ -865,7 +865,7 @@ Theorem stable_layout_attribution : forall outs0 oi outs c c' vals,
      | None => True
      end) (tc_expected_indices tc) vals.
 Proof.
-  intros outs0 oi outs c c' vals Hb He Hlay.
+  intros outs0 nout oi outs c c' vals Hb He Hlay.
   apply build_spec in Hb. apply extract_Ok_inv in He. destruct He as [_ [c1 [He _]]].
   apply extract_loop_Ok in He.
   eapply Forall2_combine; [exact Hb | exact He |].
@@ -922,7 +922,9 @@ Proof.
     destruct (styp s); simpl; split; intro H0; try discriminate; destruct H0; try discriminate; contradiction.
 Qed.
 
-Theorem length_check_passes : forall outs0 oi,
+(* num_outputs is no longer consulted by the iterator (it compares with the length of the first
+   answer); under these hypotheses the two numbers agree *)
+Theorem num_outputs_eq_length : forall outs0 oi,
   build_output_indices tc outs0 = Ok oi ->
   NoDup (map oe_sig outs0) ->
   (forall o, In o outs0 -> exists idx, In idx (tc_expected_indices tc) /\
@@ -946,14 +948,14 @@ Proof.
   pose proof (NoDup_incl_length HF I1). pose proof (NoDup_incl_length Hnd I2). lia.
 Qed.
 
-Corollary length_check_passes' : forall outs0 oi,
+Corollary num_outputs_eq_length' : forall outs0 oi,
   build_output_indices tc outs0 = Ok oi ->
   NoDup (map oe_sig outs0) ->
   (forall o, In o outs0 -> exists idx, In idx (tc_expected_indices tc) /\
       nth_error (tc_signals tc) (ei_signal_index idx) = Some (oe_sig o) /\ is_virtual (oe_sig o) = false) ->
   NoDup (map ei_signal_index (tc_expected_indices tc)) -> NoDup (tc_signals tc) ->
   num_outputs oi = length outs0.
-Proof. intros. eapply length_check_passes; eauto. apply expected_signals_NoDup; assumption. Qed.
+Proof. intros. eapply num_outputs_eq_length; eauto. apply expected_signals_NoDup; assumption. Qed.
 
 (* ------------------------------------------------------------------ (5) C13: a deviating layout is an error *)
 
@@ -972,33 +974,54 @@ Proof.
 Qed.
 
 (* a successful extraction proves that the answer has exactly the layout of the first one *)
+(* What a successful extraction establishes about the answer, with NO hypothesis on the first
+   answer: it is as long as the first one, and at every position the table tracks (the first
+   occurrence in the first answer of an expected non-virtual signal) it carries that signal. *)
+Theorem tracked_positions_preserved : forall outs0 oi outs c c' vals,
+  build_output_indices tc outs0 = Ok oi ->
+  extract_output_values G tc (length outs0) oi outs c = (c', Ok vals) ->
+  length outs = length outs0 /\
+  forall idx s n, In idx (tc_expected_indices tc) ->
+    nth_error (tc_signals tc) (ei_signal_index idx) = Some s -> is_virtual s = false ->
+    position (fun o => signal_eqb (oe_sig o) s) outs0 = Some n ->
+    exists o, nth_error outs n = Some o /\ oe_sig o = s.
+Proof.
+  intros outs0 oi outs c c' vals Hb He.
+  pose proof (build_spec _ _ Hb) as Hspec.
+  apply extract_Ok_inv in He. destruct He as [Hl [c1 [He _]]]. apply extract_loop_Ok in He.
+  split; [exact Hl|]. intros idx s n Hidx Hs Hnv Hp.
+  destruct (In_nth_error _ _ Hidx) as [k Hk].
+  destruct (Forall2_nth_error _ _ _ _ _ Hspec _ _ Hk) as [o [Ho [s' [Hs' Eo]]]].
+  unfold sig_at in Hs'. rewrite Hs in Hs'. inversion Hs'; subst s'.
+  rewrite (out_index_for_nonvirtual _ _ Hnv), Hp in Eo. subst o.
+  pose proof (nth_error_combine _ _ _ _ _ _ _ Hk Ho) as Hc.
+  destruct (Forall2_nth_error _ _ _ _ _ He _ _ Hc) as [v [_ Hpo]].
+  unfold pair_ok in Hpo. simpl in Hpo. destruct Hpo as [o [Hn [Hso _]]].
+  unfold sig_at in Hso. rewrite Hs in Hso. inversion Hso. exists o. auto.
+Qed.
+
+(* If the first answer is duplicate-free and consists of expected non-virtual signals, every
+   position is tracked: a successful extraction proves that the answer has exactly the layout
+   of the first one.  (Both hypotheses are needed, see LayoutHypothesesNeeded below.) *)
 Theorem extract_Ok_same_layout : forall outs0 oi outs c c' vals,
   build_output_indices tc outs0 = Ok oi ->
   NoDup (map oe_sig outs0) ->
   (forall o, In o outs0 -> exists idx, In idx (tc_expected_indices tc) /\
       nth_error (tc_signals tc) (ei_signal_index idx) = Some (oe_sig o) /\ is_virtual (oe_sig o) = false) ->
-  NoDup expected_signals ->
-  extract_output_values G tc oi outs c = (c', Ok vals) ->
+  extract_output_values G tc (length outs0) oi outs c = (c', Ok vals) ->
   map oe_sig outs = map oe_sig outs0.
 Proof.
-  intros outs0 oi outs c c' vals Hb Hnd Hexp Hnds He.
-  pose proof (length_check_passes _ _ Hb Hnd Hexp Hnds) as Hlen.
-  pose proof (build_spec _ _ Hb) as Hspec.
-  apply extract_Ok_inv in He. destruct He as [Hl [c1 [He _]]]. apply extract_loop_Ok in He.
-  apply nth_error_ext_eq; [rewrite !map_length; congruence|].
+  intros outs0 oi outs c c' vals Hb Hnd Hexp He.
+  destruct (tracked_positions_preserved _ _ _ _ _ _ Hb He) as [Hl Ht].
+  apply nth_error_ext_eq; [rewrite !map_length; exact Hl|].
   intros j Hj. rewrite map_length in Hj.
-  assert (Hj0 : j < length outs0) by lia.
   destruct (nth_error outs0 j) as [o0|] eqn:Ej; [|apply nth_error_None in Ej; lia].
-  pose proof (nth_error_In _ _ Ej) as Hin0.
-  destruct (Hexp o0 Hin0) as [idx [Hidx [Hs Hnv]]].
-  destruct (In_nth_error _ _ Hidx) as [k Hk].
-  destruct (Forall2_nth_error _ _ _ _ _ Hspec _ _ Hk) as [o [Ho [s [Hs' Eo]]]].
-  unfold sig_at in Hs'. rewrite Hs in Hs'. inversion Hs'; subst s.
-  rewrite (out_index_at _ _ _ Hnd Ej Hnv) in Eo. subst o.
-  pose proof (nth_error_combine _ _ _ _ _ _ _ Hk Ho) as Hc.
-  destruct (Forall2_nth_error _ _ _ _ _ He _ _ Hc) as [v [_ Hp]].
-  unfold pair_ok in Hp. simpl in Hp. destruct Hp as [o [Hn [Hso _]]].
-  unfold sig_at in Hso. rewrite Hs in Hso. inversion Hso as [E].
+  destruct (Hexp o0 (nth_error_In _ _ Ej)) as [idx [Hidx [Hs Hnv]]].
+  pose proof (out_index_at _ _ _ Hnd Ej Hnv) as Hat.
+  rewrite (out_index_for_nonvirtual _ _ Hnv) in Hat.
+  destruct (position (fun o => signal_eqb (oe_sig o) (oe_sig o0)) outs0) as [n|] eqn:Ep; [|discriminate].
+  inversion Hat; subst n.
+  destruct (Ht idx _ _ Hidx Hs Hnv Ep) as [o [Hn Ho]].
   rewrite (map_nth_error oe_sig _ _ Hn), (map_nth_error oe_sig _ _ Ej). congruence.
 Qed.
 
@@ -1007,20 +1030,37 @@ Theorem layout_deviation_is_error : forall outs0 oi outs,
   NoDup (map oe_sig outs0) ->
   (forall o, In o outs0 -> exists idx, In idx (tc_expected_indices tc) /\
       nth_error (tc_signals tc) (ei_signal_index idx) = Some (oe_sig o) /\ is_virtual (oe_sig o) = false) ->
-  NoDup (map ei_signal_index (tc_expected_indices tc)) -> NoDup (tc_signals tc) ->
   map oe_sig outs <> map oe_sig outs0 ->
-  forall c c' vals, extract_output_values G tc oi outs c <> (c', Ok vals).
+  forall c c' vals, extract_output_values G tc (length outs0) oi outs c <> (c', Ok vals).
 Proof.
-  intros outs0 oi outs Hb Hnd Hexp Hn1 Hn2 Hdev c c' vals He. apply Hdev.
-  eapply extract_Ok_same_layout; eauto. apply expected_signals_NoDup; assumption.
+  intros outs0 oi outs Hb Hnd Hexp Hdev c c' vals He. apply Hdev.
+  eapply extract_Ok_same_layout; eauto.
 Qed.
 
 (* a changed number of entries is reported as such *)
-Theorem wrong_length_is_error : forall oi outs c, length outs <> num_outputs oi ->
-  extract_output_values G tc oi outs c =
-  (c, Err (RT_WrongNumberOfOutputs (N.of_nat (num_outputs oi)) (N.of_nat (length outs)))).
+Theorem wrong_length_is_error : forall nout oi outs c, length outs <> nout ->
+  extract_output_values G tc nout oi outs c =
+  (c, Err (RT_WrongNumberOfOutputs (N.of_nat nout) (N.of_nat (length outs)))).
 Proof.
-  intros oi outs c H. rewrite extract_unfold. apply Nat.eqb_neq in H. rewrite H. reflexivity.
+  intros nout oi outs c H. rewrite extract_unfold. apply Nat.eqb_neq in H. rewrite H. reflexivity.
+Qed.
+
+(* ... in particular with respect to the first answer: NO hypothesis on either answer or on the table *)
+Theorem length_deviation_is_error : forall (outs0 : list out_entry) oi outs c, length outs <> length outs0 ->
+  extract_output_values G tc (length outs0) oi outs c =
+  (c, Err (RT_WrongNumberOfOutputs (N.of_nat (length outs0)) (N.of_nat (length outs)))).
+Proof. intros. apply wrong_length_is_error. assumption. Qed.
+
+(* conversely an answer with the layout of the first one passes the length check *)
+Theorem length_check_passes : forall outs0 oi outs c, map oe_sig outs = map oe_sig outs0 ->
+  length outs = length outs0 /\
+  extract_output_values G tc (length outs0) oi outs c =
+  (ctx_swap_vars (fst (extract_loop G tc (combine (tc_expected_indices tc) oi) outs (ctx_swap_vars c))),
+   snd (extract_loop G tc (combine (tc_expected_indices tc) oi) outs (ctx_swap_vars c))).
+Proof.
+  intros outs0 oi outs c H.
+  assert (Hl : length outs = length outs0) by (rewrite <- (map_length oe_sig outs), H, map_length; reflexivity).
+  split; [exact Hl|]. rewrite extract_unfold, Hl, Nat.eqb_refl. reflexivity.
 Qed.
 
 (* ------------------------------------------------------------------ which failures are possible at all *)
@@ -1081,18 +1121,18 @@ Qed.
 (* Whatever the first answer was, NO later answer whatsoever makes extract_output_values
    panic: the three runtime errors are the only failures.  (An index of the table that lies
    beyond the end of a later answer is a WrongOutputOrder: outputs.get(n).) *)
-Theorem extract_never_panics : forall outs0 oi outs c,
+Theorem extract_never_panics : forall outs0 nout oi outs c,
   build_output_indices tc outs0 = Ok oi ->
   (forall s e, In s (tc_signals tc) -> styp s = TyVirtual e -> wf_expr e) ->
-  match snd (extract_output_values G tc oi outs c) with
+  match snd (extract_output_values G tc nout oi outs c) with
   | Ok _ => True
-  | Err e => e = RT_WrongNumberOfOutputs (N.of_nat (num_outputs oi)) (N.of_nat (length outs))
+  | Err e => e = RT_WrongNumberOfOutputs (N.of_nat nout) (N.of_nat (length outs))
              \/ e = RT_WrongOutputOrder \/ exists x, e = RT_Expr x
   | Panic _ | OOF => False
   end.
 Proof.
-  intros outs0 oi outs c Hb Hwf. rewrite extract_unfold.
-  destruct (Nat.eqb (length outs) (num_outputs oi)) eqn:El; simpl; [|auto].
+  intros outs0 nout oi outs c Hb Hwf. rewrite extract_unfold.
+  destruct (Nat.eqb (length outs) nout) eqn:El; simpl; [|auto].
   assert (K : match snd (extract_loop G tc (combine (tc_expected_indices tc) oi) outs (ctx_swap_vars c)) with
               | Ok _ => True
               | Err e => e = RT_WrongOutputOrder \/ exists x, e = RT_Expr x
@@ -1113,20 +1153,18 @@ Theorem layout_deviation_error_kind : forall outs0 oi outs c,
   NoDup (map oe_sig outs0) ->
   (forall o, In o outs0 -> exists idx, In idx (tc_expected_indices tc) /\
       nth_error (tc_signals tc) (ei_signal_index idx) = Some (oe_sig o) /\ is_virtual (oe_sig o) = false) ->
-  NoDup (map ei_signal_index (tc_expected_indices tc)) -> NoDup (tc_signals tc) ->
   (forall s e, In s (tc_signals tc) -> styp s = TyVirtual e -> wf_expr e) ->
   map oe_sig outs <> map oe_sig outs0 ->
-  exists e, snd (extract_output_values G tc oi outs c) = Err e /\
+  exists e, snd (extract_output_values G tc (length outs0) oi outs c) = Err e /\
     (e = RT_WrongNumberOfOutputs (N.of_nat (length outs0)) (N.of_nat (length outs))
      \/ e = RT_WrongOutputOrder \/ exists x, e = RT_Expr x).
 Proof.
-  intros outs0 oi outs c Hb Hnd Hexp Hn1 Hn2 Hwf Hdev.
-  pose proof (length_check_passes' _ _ Hb Hnd Hexp Hn1 Hn2) as Hlen.
-  pose proof (extract_never_panics outs0 oi outs c Hb Hwf) as K.
-  pose proof (layout_deviation_is_error _ _ _ Hb Hnd Hexp Hn1 Hn2 Hdev c) as Hne.
-  destruct (extract_output_values G tc oi outs c) as [c' [vals|e|s|]] eqn:E; simpl in *; try contradiction.
+  intros outs0 oi outs c Hb Hnd Hexp Hwf Hdev.
+  pose proof (extract_never_panics outs0 (length outs0) oi outs c Hb Hwf) as K.
+  pose proof (layout_deviation_is_error _ _ _ Hb Hnd Hexp Hdev c) as Hne.
+  destruct (extract_output_values G tc (length outs0) oi outs c) as [c' [vals|e|s|]] eqn:E; simpl in *; try contradiction.
   - exfalso. apply (Hne c' vals). reflexivity.
-  - exists e. split; [reflexivity|]. rewrite <- Hlen. exact K.
+  - exists e. split; [reflexivity | exact K].
 Qed.
 
 (* ------------------------------------------------------------------ (7) C04: reading an output the driver does not supply *)
@@ -1210,6 +1248,33 @@ Proof.
   destruct (IH vs ltac:(lia)) as [H1 [H2 H3]]. rewrite H1, H2, H3. auto.
 Qed.
 
+(* ------------------------------------------------------------------ the two hypotheses of (5) are needed *)
+
+(* The table only tracks the FIRST occurrence of each EXPECTED signal in the first answer.  A
+   first answer with a duplicated entry, or with an entry that is no expected signal, leaves a
+   position untracked, and a later answer of the same length may put anything there. *)
+Module LayoutHypothesesNeeded.
+Definition sigA : signal := {| sname := [65%N]; sbits := 1%N; styp := TyOutput |}.
+Definition sigB : signal := {| sname := [66%N]; sbits := 1%N; styp := TyOutput |}.
+Definition sigJ : signal := {| sname := [74%N]; sbits := 1%N; styp := TyOutput |}.
+Definition tcA : testcase :=
+  {| tc_stmts := []; tc_signals := [sigA]; tc_input_indices := [];
+     tc_expected_indices := [EIEntry 0 0]; tc_read_outputs := [] |}.
+Definition oe (s : signal) : out_entry := {| oe_sig := s; oe_val := OVal 0 |}.
+
+(* first answer [A; A]: position 1 is untracked, [A; B] is accepted *)
+Theorem duplicate_in_first_answer : forall G,
+  build_output_indices tcA [oe sigA; oe sigA] = Ok [OIOutput 0] /\
+  extract_output_values G tcA 2 [OIOutput 0] [oe sigA; oe sigB] (ctx_new []) = (ctx_new [], Ok [OVal 0]).
+Proof. intro G. split; reflexivity. Qed.
+
+(* first answer [A; J] with J not expected: position 1 is untracked, [A; B] is accepted *)
+Theorem unexpected_in_first_answer : forall G,
+  build_output_indices tcA [oe sigA; oe sigJ] = Ok [OIOutput 0] /\
+  extract_output_values G tcA 2 [OIOutput 0] [oe sigA; oe sigB] (ctx_new []) = (ctx_new [], Ok [OVal 0]).
+Proof. intro G. split; reflexivity. Qed.
+End LayoutHypothesesNeeded.
+
 (* ------------------------------------------------------------------ assumptions *)
 
 Print Assumptions signal_eqb_eq.
@@ -1218,7 +1283,10 @@ Print Assumptions is_checked_iff.
 Print Assumptions failing_outputs_spec.
 Print Assumptions no_misattribution.
 Print Assumptions stable_layout_attribution.
-Print Assumptions length_check_passes'.
+Print Assumptions num_outputs_eq_length'.
+Print Assumptions tracked_positions_preserved.
+Print Assumptions length_deviation_is_error.
+Print Assumptions length_check_passes.
 Print Assumptions extract_Ok_same_layout.
 Print Assumptions layout_deviation_is_error.
 Print Assumptions layout_deviation_error_kind.
